@@ -69,14 +69,15 @@ theorem sync_kill (sp : Sys) (jo : JobObj) (kt : Time) (hspec : KillSpec jo.job 
       rj5.status.tasks.map (·.finishTimestamp) =
         (generateTaskRefs sp.clock jo.job.status.tasks (killTasks sp jo)).map (·.finishTimestamp) →
       ∀ fin, (recompute sp.clock sp.d rj5 (killTasks sp jo)).status.condition.finished = some fin →
-      fin.finishTimestamp.getD zeroTime + getTTLAfterFinished jo.job sp.cfg > sp.clock) :
+      fin.finishTimestamp.getD zeroTime + getTTLAfterFinished jo.job sp.cfg > sp.clock)
+    (hfn : TasksFn (killTasks sp jo)) :
     ∃ s' rj5 N, sync sp jo = (s', recompute sp.clock sp.d rj5 (killTasks sp jo), jo.finalizer, true, false) ∧
       MarkedT (jobKey jo) sp s' N ∧
       (∀ n, n ∈ N ↔ ∃ t ∈ killTasks sp jo, t.name = n ∧ isTaskFinished t = false) ∧
       KillSpec rj5 kt ∧ SameSpec jo.job rj5 ∧
       rj5.status.tasks.map (·.finishTimestamp) =
         (generateTaskRefs sp.clock jo.job.status.tasks (killTasks sp jo)).map (·.finishTimestamp) := by
-  obtain ⟨s6, rj5, N, h6, hm6, hN, hk5, hs5, hfm⟩ := syncJobTasks_kill sp jo kt hspec hle hnf hnd hdts
+  obtain ⟨s6, rj5, N, h6, hm6, hN, hk5, hs5, hfm⟩ := syncJobTasks_kill sp jo kt hspec hle hnf hnd hdts hfn
   have hF : KillSpec (recompute sp.clock sp.d rj5 (killTasks sp jo)) kt := hk5.recompute _ _ _
   have hsF : SameSpec jo.job (recompute sp.clock sp.d rj5 (killTasks sp jo)) :=
     hs5.trans (recompute_sameSpec sp.clock sp.d rj5 (killTasks sp jo)).1
